@@ -315,7 +315,9 @@ def _structural_tuples(mods):
                             vals[f] = _copy.deepcopy(defaults[f])
                         else:
                             return node
-                return ast.copy_location(ast.Tuple(elts=[vals[f] for f in fields], ctx=ast.Load()), node)
+                tup = ast.copy_location(ast.Tuple(elts=[vals[f] for f in fields], ctx=ast.Load()), node)
+                tup._nt_name = node.func.id          # which named tuple this display was (its fields by name: m.named_tuples)
+                return tup
             return node
     # one-line methods of a named-tuple class (`def as_tuple(self): return tuple(self[:8])`): the expression, with the receiver in
     # place of self, at every call `x.as_tuple()` - when the name belongs to named-tuple classes only and self is read once
@@ -435,24 +437,66 @@ class Program:
 
     # ---- pipeline functions with their private phase helpers written back in ---------------------------------------
     PIPELINE = {"tad.py::StochasticGame.solve", "tad.py::Solver.solve_reachability", "tad.py::Solver.solve_total_rewards",
-                "tad.py::Solver.prune_stochastich_game", "conditionalrewards.py::main"}
+                "tad.py::Solver.prune_stochastich_game", "conditionalrewards.py::main", "roberta_generator.py::main"}
+    # the command-line parameters the properties speak about; any further option is judged at its argparse default
+    CLI_DOCUMENTED = {"roberta_generator.py": {"seed", "width", "length", "max_reward", "prob_robot_break", "prob_light_break", "prob_tile_break",
+                                               "prob_loose_tile", "force_down"},
+                      "conditionalrewards.py": {"file", "log_level", "save_results"}}
     ANCHORS = {"check_game", "init_states", "count_transitions", "solve", "solve_reachability", "value_iteration_reachability", "_get_reachability_strategies",
                "prune_reachability", "prune_stochastich_game", "prune_paths", "prune_states", "solve_total_rewards", "value_iteration_total_rewards",
                "_get_total_rewards_strategies", "read_dict_from_file", "run_games", "save_results_to_file", "init_parser", "set_logger", "reverse_dfs"}
 
-    def pipeline_view(self, qual):
+    def pipeline_view(self, qual, all_options=False):
         """The function `qual` with calls of helper methods / private module functions that are not anchors of any rule replaced
         by the helpers' bodies (parameters bound by assignments, locals renamed, `return` turned into the assignment or return
         of the call site).  A maintainer who splits solve() into phases leaves the same pipeline; the CFG rules look at this
-        view.  Returns the original Func when nothing can be inlined."""
-        cache = self.__dict__.setdefault("_pipeline_views", {})
+        view.  Returns the original Func when nothing can be inlined.
+        all_options=True: main() with every command-line option live and only private helpers written back in - for the rules that
+        say what must hold whatever options are given (validation on every path, nothing modifies the results before the report)."""
+        cache = self.__dict__.setdefault("_pipeline_views_all" if all_options else "_pipeline_views", {})
         if qual in cache:
             return cache[qual]
         f = self.funcs[qual]
+        import copy as _copy
+        node = None
+        # options added to a pipeline function (`solve(prune_states=None)`, `main(argv=None)`): the documented call passes none
+        # of them, so they start out as their defaults (a prologue assignment; later assignments to the name stay what they are)
+        pro = []
+        for p_, d_ in f.defaults.items():
+            ok_, v_ = self.try_const(d_, f.mod)
+            if ok_ and (v_ is None or isinstance(v_, (bool, int, float, str))):
+                pro.append(ast.Assign(targets=[ast.Name(id=p_, ctx=ast.Store())], value=ast.Constant(value=v_), lineno=f.node.lineno, col_offset=0))
+        if pro:
+            node = _copy.deepcopy(f.node)
+            doc = [st for st in node.body[:1] if isinstance(st, ast.Expr) and isinstance(st.value, ast.Constant)]
+            node.body = doc + pro + node.body[len(doc):]
+            node.decorator_list = []
+            ast.fix_missing_locations(node)
+        # main(): command-line options outside the documented interface at their argparse defaults
+        if f.name == "main" and f.cls is None and f.mod.name in self.CLI_DOCUMENTED and not all_options:
+            try:
+                node2 = _cli_defaults(self, f, node if node is not None else _copy.deepcopy(f.node))
+            except Exception:
+                node2 = None
+            if node2 is not None:
+                node = node2
+        # helpers written back in
+        g = f
+        if node is not None:
+            add_parents(node)
+            node.parent = getattr(f.node, "parent", None)
+            g = Func(f.mod, f.cls, node)
         try:
-            node = _inline_helpers(self, f)
+            node3 = _inline_helpers(self, g, public=(f.name == "main" and f.cls is None and not all_options))
         except Exception:
-            node = None
+            node3 = None
+        if node3 is not None:
+            node = node3
+        if node is not None and f.name == "main" and f.cls is None and f.mod.name in self.CLI_DOCUMENTED and not all_options:
+            try:
+                node = _fold_static(_pure_iter_helpers(self, f, node))
+            except Exception:
+                pass
         if node is None:
             cache[qual] = f
         else:
@@ -628,8 +672,18 @@ class Program:
             return False, None
 
 
-def _inline_helpers(prog, f, depth=0):
-    """New FunctionDef for f with inlinable helper calls expanded, or None if there is none."""
+# module-level functions of the reference tree: the rules are anchored on them, a view never writes them into their caller
+REFERENCE_FUNCS = {"gen_rnd_board", "get_random_moves", "player_two_transitions", "player_one_down_transitions", "player_one_left_right_transitions",
+                   "prob_tile_break_transitions", "write_preamble", "write_robot_A", "prob_robot_down_break_transitions", "prob_robot_left_break_transitions",
+                   "prob_robot_right_break_transitions", "write_robot_B", "player_one_down_left_right_transitions", "prob_light_break_transitions",
+                   "write_robot_C", "write_robots", "init_parser", "check_input", "prob_to_str", "main", "save_results_to_file", "read_dict_from_file",
+                   "run_games", "set_logger", "get_max_from_matrix", "create_sg_from_board", "reverse_dfs", "reverse_dfs_from", "reverse_transition_list",
+                   "reverse_transition_list_core", "list_of_tuples_to_dict_of_lists", "add_missing_states"}
+
+
+def _inline_helpers(prog, f, depth=0, public=False):
+    """New FunctionDef for f with inlinable helper calls expanded, or None if there is none.  public: helpers without a leading
+    underscore count too, as long as they are not functions of the reference tree (a `process_file` split off main())."""
     import copy as _copy
     counter = [0]
 
@@ -644,6 +698,8 @@ def _inline_helpers(prog, f, depth=0):
                     return m
         if isinstance(fn, ast.Name) and fn.id.startswith("_") and fn.id in f.mod.funcs and fn.id not in Program.ANCHORS:
             return f.mod.funcs[fn.id]
+        if public and isinstance(fn, ast.Name) and fn.id in f.mod.funcs and fn.id not in Program.ANCHORS and fn.id not in REFERENCE_FUNCS:
+            return f.mod.funcs[fn.id]
         return None
 
     def simple(h):
@@ -651,7 +707,7 @@ def _inline_helpers(prog, f, depth=0):
         if a.vararg or a.kwarg or h.node.decorator_list:
             return False
         for n in ast.walk(h.node):
-            if isinstance(n, (ast.Yield, ast.YieldFrom, ast.Global, ast.Nonlocal, ast.Lambda, ast.Try, ast.With)) or (isinstance(n, ast.FunctionDef) and n is not h.node):
+            if isinstance(n, (ast.Yield, ast.YieldFrom, ast.Global, ast.Nonlocal, ast.Lambda, ast.Try)) or (isinstance(n, ast.FunctionDef) and n is not h.node):
                 return False
         return True
 
@@ -682,7 +738,7 @@ def _inline_helpers(prog, f, depth=0):
                     return out
                 new = ast.If(test=st.test, body=body, orelse=orelse)
                 out.append(ast.copy_location(new, st))
-            elif isinstance(st, (ast.For, ast.While)):
+            elif isinstance(st, (ast.For, ast.While, ast.With)):
                 if any(isinstance(n, ast.Return) for n in ast.walk(st)):
                     return None
                 out.append(st)
@@ -798,6 +854,9 @@ def _inline_helpers(prog, f, depth=0):
                         nxt = ("args0", node.args[0])
                     elif isinstance(node, ast.Subscript):
                         nxt = ("value", node.value)
+                    if isinstance(node, ast.Call) and isinstance(node.func, ast.Attribute) and isinstance(node.func.value, ast.Name) and node.func.attr in ("append", "add", "extend") \
+                            and len(node.args) == 1 and not node.keywords and isinstance(node.args[0], ast.Call):
+                        nxt = ("args0", node.args[0])             # names.append(make(...)): the receiver is a plain name, the argument runs first
                     if nxt is None:
                         break
                     par, node = (node, nxt[0]), nxt[1]
@@ -809,7 +868,10 @@ def _inline_helpers(prog, f, depth=0):
                         # walk the same path in the copy
                         path, n0 = [], call
                         while n0 is not node:
-                            if isinstance(n0, ast.Call) and isinstance(n0.func, ast.Attribute):
+                            if isinstance(n0, ast.Call) and isinstance(n0.func, ast.Attribute) and isinstance(n0.func.value, ast.Name) and n0.func.attr in ("append", "add", "extend") \
+                                    and len(n0.args) == 1 and isinstance(n0.args[0], ast.Call):
+                                path.append("a0"); n0 = n0.args[0]
+                            elif isinstance(n0, ast.Call) and isinstance(n0.func, ast.Attribute):
                                 path.append("fv"); n0 = n0.func.value
                             elif isinstance(n0, ast.Call):
                                 path.append("a0"); n0 = n0.args[0]
@@ -860,6 +922,316 @@ def _inline_helpers(prog, f, depth=0):
     node.end_lineno = f.node.end_lineno
     ast.fix_missing_locations(node)
     canonicalise(ast.Module(body=[node], type_ignores=[]))
+    return node
+
+
+def _pure_iter_helpers(prog, f, node):
+    """`for x in helper(a, b):` where helper is a new one-line function of the module (`return [first + i for i in range(n)]`) and
+    the arguments are plain names / constants: the returned expression, arguments in place, as the iteration source."""
+    import copy as _c
+    for n in ast.walk(node):
+        if not (isinstance(n, ast.For) and isinstance(n.iter, ast.Call) and isinstance(n.iter.func, ast.Name)):
+            continue
+        h = f.mod.funcs.get(n.iter.func.id)
+        if h is None or h.name in REFERENCE_FUNCS or h.name in Program.ANCHORS or h.node.decorator_list:
+            continue
+        body = [b for b in h.node.body if not (isinstance(b, ast.Expr) and isinstance(b.value, ast.Constant))]
+        a = h.node.args
+        if len(body) != 1 or not isinstance(body[0], ast.Return) or body[0].value is None or a.vararg or a.kwarg or a.kwonlyargs:
+            continue
+        params = [x.arg for x in a.posonlyargs + a.args]
+        call = n.iter
+        if any(isinstance(x, ast.Starred) for x in call.args) or any(k.arg is None for k in call.keywords) or len(call.args) > len(params):
+            continue
+        bound = dict(zip(params, call.args))
+        bound.update({k.arg: k.value for k in call.keywords})
+        for p_, d_ in h.defaults.items():
+            bound.setdefault(p_, d_)
+        if set(bound) != set(params) or not all(isinstance(v, (ast.Name, ast.Constant)) for v in bound.values()):
+            continue
+        expr = _c.deepcopy(body[0].value)
+        inner = {x.id for x in ast.walk(expr) if isinstance(x, ast.Name) and isinstance(x.ctx, ast.Store)}
+        if inner & set(params) or any(isinstance(x, (ast.Lambda, ast.Yield, ast.Await, ast.NamedExpr)) for x in ast.walk(expr)):
+            continue
+        free = {x.id for x in ast.walk(expr) if isinstance(x, ast.Name) and isinstance(x.ctx, ast.Load)} - set(params) - inner
+        import builtins
+        if any(not hasattr(builtins, x) and x not in f.mod.consts for x in free):
+            continue
+
+        class S(ast.NodeTransformer):
+            def visit_Name(self, m):
+                if isinstance(m.ctx, ast.Load) and m.id in bound:
+                    return ast.copy_location(_c.deepcopy(bound[m.id]), m)
+                return m
+        n.iter = ast.copy_location(S().visit(expr), call)
+    ast.fix_missing_locations(node)
+    return node
+
+
+def _fold_static(node):
+    """Constant propagation for single-assignment locals, `if`s on constants folded, loops over a display of at most one element
+    unrolled - on a function view (in place; returns the node)."""
+    import copy as _c
+
+    def pure_display(e):
+        return isinstance(e, (ast.List, ast.Tuple)) and len(e.elts) <= 1 and all(isinstance(x, (ast.Name, ast.Constant)) or (
+            isinstance(x, ast.Attribute) and isinstance(x.value, ast.Name)) for x in e.elts)
+
+    class E(ast.NodeTransformer):
+        """xs + [] -> xs, x + 0 -> x, len(<display>) -> n, [f(i) for i in range(0|1)] -> display, range(0|1) -> display"""
+        def visit_BinOp(self, n):
+            self.generic_visit(n)
+            if isinstance(n.op, ast.Add):
+                for a_, b_ in ((n.left, n.right), (n.right, n.left)):
+                    if isinstance(b_, ast.List) and not b_.elts and isinstance(a_, ast.List):
+                        return a_
+                if isinstance(n.right, ast.Constant) and n.right.value == 0 and type(n.right.value) is int and isinstance(n.left, (ast.Name, ast.Attribute)):
+                    return n.left
+            return n
+
+        def visit_Call(self, n):
+            self.generic_visit(n)
+            if isinstance(n.func, ast.Name) and n.func.id == "len" and len(n.args) == 1 and not n.keywords and isinstance(n.args[0], (ast.List, ast.Tuple)) \
+                    and not any(isinstance(x, ast.Starred) for x in n.args[0].elts):
+                return ast.copy_location(ast.Constant(value=len(n.args[0].elts)), n)
+            if isinstance(n.func, ast.Name) and n.func.id == "range" and len(n.args) == 1 and not n.keywords and isinstance(n.args[0], ast.Constant) \
+                    and n.args[0].value in (0, 1) and type(n.args[0].value) is int:
+                return ast.copy_location(ast.List(elts=[ast.Constant(value=i) for i in range(n.args[0].value)], ctx=ast.Load()), n)
+            return n
+
+        def visit_ListComp(self, n):
+            self.generic_visit(n)
+            if len(n.generators) == 1 and not n.generators[0].ifs and isinstance(n.generators[0].target, ast.Name) and isinstance(n.generators[0].iter, ast.List) \
+                    and len(n.generators[0].iter.elts) <= 1 and all(isinstance(x, ast.Constant) for x in n.generators[0].iter.elts):
+                t = n.generators[0].target.id
+                out = []
+                for c in n.generators[0].iter.elts:
+                    class S(ast.NodeTransformer):
+                        def visit_Name(self, m):
+                            return ast.copy_location(ast.Constant(value=c.value), m) if m.id == t and isinstance(m.ctx, ast.Load) else m
+                    out.append(E().visit(S().visit(_c.deepcopy(n.elt))))
+                return ast.copy_location(ast.List(elts=out, ctx=ast.Load()), n)
+            return n
+
+    for _ in range(4):
+        node = E().visit(node)
+        stores = {}
+        for n in ast.walk(node):
+            if isinstance(n, ast.Name) and isinstance(n.ctx, (ast.Store, ast.Del)):
+                stores.setdefault(n.id, []).append(n)
+            elif isinstance(n, ast.arg):
+                stores.setdefault(n.arg, []).append(n)
+        consts, displays = {}, {}
+        for st in node.body:
+            if isinstance(st, ast.Assign) and len(st.targets) == 1 and isinstance(st.targets[0], ast.Name) and len(stores.get(st.targets[0].id, [])) == 1:
+                if isinstance(st.value, ast.Constant) or (isinstance(st.value, ast.List) and not st.value.elts):
+                    consts[st.targets[0].id] = st.value
+                elif pure_display(st.value) and not any(isinstance(x, ast.Name) and len(stores.get(x.id, [])) > 1 for x in ast.walk(st.value)):
+                    displays[st.targets[0].id] = st.value
+        # a display of plain names is copied only where its length / its elements are asked for: `for x in names`, `len(names)`
+        mutated = {n.func.value.id for n in ast.walk(node) if isinstance(n, ast.Call) and isinstance(n.func, ast.Attribute) and isinstance(n.func.value, ast.Name)
+                   and n.func.attr in ("append", "extend", "insert", "pop", "remove", "clear", "sort", "reverse")}
+        mutated |= {n.value.id for n in ast.walk(node) if isinstance(n, ast.Subscript) and isinstance(n.ctx, (ast.Store, ast.Del)) and isinstance(n.value, ast.Name)}
+
+        class P(ast.NodeTransformer):
+            def visit_Name(self, n):
+                if isinstance(n.ctx, ast.Load) and n.id in consts and n.id not in mutated:
+                    return ast.copy_location(_c.deepcopy(consts[n.id]), n)
+                return n
+
+            def visit_For(self, n):
+                if isinstance(n.iter, ast.Name) and n.iter.id in displays and n.iter.id not in mutated:
+                    n.iter = ast.copy_location(_c.deepcopy(displays[n.iter.id]), n.iter)
+                self.generic_visit(n)
+                return n
+
+            def visit_Call(self, n):
+                if isinstance(n.func, ast.Name) and n.func.id == "len" and len(n.args) == 1 and isinstance(n.args[0], ast.Name) and n.args[0].id in displays \
+                        and n.args[0].id not in mutated:
+                    return ast.copy_location(ast.Constant(value=len(displays[n.args[0].id].elts)), n)
+                self.generic_visit(n)
+                return n
+        if consts or displays:
+            node = P().visit(node)
+
+        def truth(t):
+            """True / False / None"""
+            if isinstance(t, ast.Constant):
+                return bool(t.value)
+            if isinstance(t, ast.List) and not t.elts:
+                return False
+            if isinstance(t, ast.UnaryOp) and isinstance(t.op, ast.Not):
+                v = truth(t.operand)
+                return None if v is None else not v
+            if isinstance(t, ast.BoolOp):
+                vs = [truth(x) for x in t.values]
+                if isinstance(t.op, ast.And):
+                    return False if False in vs else (None if None in vs else True)
+                return True if True in vs else (None if None in vs else False)
+            if isinstance(t, ast.Compare) and len(t.ops) == 1 and isinstance(t.left, ast.Constant) and isinstance(t.comparators[0], ast.Constant):
+                a, b, op = t.left.value, t.comparators[0].value, t.ops[0]
+                try:
+                    if isinstance(op, ast.Is):
+                        return a is b if (a is None or b is None or isinstance(a, bool) or isinstance(b, bool)) else None
+                    if isinstance(op, ast.IsNot):
+                        return a is not b if (a is None or b is None or isinstance(a, bool) or isinstance(b, bool)) else None
+                    if isinstance(op, ast.Eq):
+                        return a == b
+                    if isinstance(op, ast.NotEq):
+                        return a != b
+                    if isinstance(op, ast.Lt):
+                        return a < b
+                    if isinstance(op, ast.LtE):
+                        return a <= b
+                    if isinstance(op, ast.Gt):
+                        return a > b
+                    if isinstance(op, ast.GtE):
+                        return a >= b
+                except TypeError:
+                    return None
+            return None
+
+        def unroll(st):
+            """`for x in [e]: body` -> `x = e; body` (no break / continue of this loop, or a trailing `if c: break`); `for x in []` -> else."""
+            if not (isinstance(st.iter, (ast.List, ast.Tuple)) and len(st.iter.elts) <= 1 and not any(isinstance(x, ast.Starred) for x in st.iter.elts)):
+                return None
+            if not st.iter.elts:
+                return list(st.orelse)
+            body = list(st.body)
+            if body and isinstance(body[-1], ast.If) and not body[-1].orelse and len(body[-1].body) == 1 and isinstance(body[-1].body[0], (ast.Break, ast.Continue)) and not st.orelse:
+                body = body[:-1]
+
+            def own_jump(b):
+                for x in b:
+                    if isinstance(x, (ast.Break, ast.Continue)):
+                        return True
+                    if isinstance(x, (ast.For, ast.While, ast.FunctionDef, ast.ClassDef)):
+                        continue
+                    for fld in ("body", "orelse", "finalbody", "handlers"):
+                        sub = getattr(x, fld, None)
+                        if isinstance(sub, list) and sub and isinstance(sub[0], ast.excepthandler):
+                            if any(own_jump(h.body) for h in sub):
+                                return True
+                        elif isinstance(sub, list) and sub and isinstance(sub[0], ast.stmt) and own_jump(sub):
+                            return True
+                return False
+            if own_jump(body):
+                return None
+            tgt = _c.deepcopy(st.target)
+            asg = ast.copy_location(ast.Assign(targets=[tgt], value=st.iter.elts[0]), st)
+            return [asg] + body + list(st.orelse)
+
+        def fold(block):
+            out = []
+            for st in block:
+                if isinstance(st, ast.If):
+                    v = truth(st.test)
+                    if v is True:
+                        out.extend(fold(st.body))
+                        continue
+                    if v is False:
+                        out.extend(fold(st.orelse))
+                        continue
+                    st.body = fold(st.body) or [ast.copy_location(ast.Pass(), st)]
+                    st.orelse = fold(st.orelse)
+                elif isinstance(st, ast.For):
+                    u = unroll(st)
+                    if u is not None:
+                        out.extend(fold(u))
+                        continue
+                    st.body = fold(st.body) or [ast.copy_location(ast.Pass(), st)]
+                elif isinstance(st, (ast.While, ast.With)):
+                    st.body = fold(st.body) or [ast.copy_location(ast.Pass(), st)]
+                elif isinstance(st, ast.Try):
+                    st.body = fold(st.body) or [ast.copy_location(ast.Pass(), st)]
+                out.append(st)
+                if isinstance(st, (ast.Return, ast.Raise)):
+                    break
+            return out
+        node.body = fold(node.body) or [ast.Pass()]
+    ast.fix_missing_locations(node)
+    return node
+
+
+def _cli_defaults(prog, f, node):
+    """main() with every command-line option that the documented interface does not have read as its argparse default
+    (`--board FILE` default None, `--count N` default 1, `--details` store_true = False), and the `if`s that this decides folded:
+    the program as it runs when the new option is not given.  None when there is no such option."""
+    doc = prog.CLI_DOCUMENTED[f.mod.name]
+    ip = f.mod.funcs.get("init_parser")
+    if ip is None:
+        return None
+    defaults = {}
+    for c in ast.walk(ip.node):
+        if not (isinstance(c, ast.Call) and isinstance(c.func, ast.Attribute) and c.func.attr == "add_argument"):
+            continue
+        kw = {k.arg: k.value for k in c.keywords if k.arg}
+        flags = [a.value for a in c.args if isinstance(a, ast.Constant) and isinstance(a.value, str)]
+        if len(flags) != len(c.args) or not flags:
+            return None
+        dest = None
+        if "dest" in kw:
+            if not (isinstance(kw["dest"], ast.Constant) and isinstance(kw["dest"].value, str)):
+                return None
+            dest = kw["dest"].value
+        else:
+            longs = [x for x in flags if x.startswith("--")]
+            pos = [x for x in flags if not x.startswith("-")]
+            dest = (longs[0][2:] if longs else (pos[0] if pos else flags[0].lstrip("-"))).replace("-", "_")
+        if dest in doc:
+            continue
+        req = kw.get("required")
+        if req is not None and not (isinstance(req, ast.Constant) and req.value is False):
+            continue
+        if not any(x.startswith("-") for x in flags):
+            nargs = kw.get("nargs")
+            if isinstance(nargs, ast.Constant) and nargs.value == "*" and "default" not in kw:
+                defaults[dest] = []               # optional positionals: nothing given
+            continue
+        act = kw.get("action")
+        actv = act.value if isinstance(act, ast.Constant) else ("store" if act is None else None)
+        if actv == "store_true":
+            val = False
+        elif actv == "store_false":
+            val = True
+        elif actv in ("store", "append", "extend", "count"):
+            d = kw.get("default")
+            if d is None:
+                val = None
+            else:
+                ok, val = prog.try_const(d, f.mod)
+                if not ok or not (val is None or isinstance(val, (bool, int, float, str))):
+                    continue
+        else:
+            continue
+        defaults[dest] = val
+    if not defaults:
+        return None
+    spaces = set()
+    for n in ast.walk(node):
+        if isinstance(n, ast.Assign) and isinstance(n.value, ast.Call) and isinstance(n.value.func, ast.Attribute) and n.value.func.attr in ("parse_args", "parse_known_args"):
+            spaces.update(t.id for t in n.targets if isinstance(t, ast.Name))
+    if not spaces:
+        return None
+    hit = [False]
+
+    def lit(v, at):
+        e = ast.List(elts=[], ctx=ast.Load()) if v == [] else ast.Constant(value=v)
+        return ast.copy_location(e, at)
+
+    class A(ast.NodeTransformer):
+        def visit_Attribute(self, n):
+            self.generic_visit(n)
+            if isinstance(n.ctx, ast.Load) and isinstance(n.value, ast.Name) and n.value.id in spaces and n.attr in defaults:
+                hit[0] = True
+                return lit(defaults[n.attr], n)
+            return n
+    node = A().visit(node)
+    if not hit[0]:
+        return None
+    node = _fold_static(node)
+    node.decorator_list = []
+    ast.fix_missing_locations(node)
     return node
 
 
